@@ -42,7 +42,7 @@ ASSUMPTIONS = [
 ]
 REQUIRED = ["op_get_subtree", "op_node_subtree", "op_to_subtree", "op_cut_enter", "op_cut_leave",
             "op_cut_type", "op_cut_order", "op_cut_tip", "op_neurites", "op_dendrites",
-            "transform_instance_reused", "numpy_scalar_node_ids",
+            "transform_instance_reused", "numpy_scalar_node_ids", "removals_as_iterator_or_set",
             "mappings_checked", "tip_exact_threshold_cases", "exhaustive_subsets",
             "tap_to_sub_topology", "tap_propagate_removal", "tap_get_subtree_impl"]
 FLOOR = {"quick": 2500, "thorough": 50000}
@@ -156,7 +156,14 @@ def _op_to_subtree(ctx, case, spec, tree):
     gone = _closure(ch, rem)
     mk = case.get("mapping", "list")
     m = [] if mk == "list" else ({} if mk == "dict" else None)
-    arg = rem if case.get("as", "list") == "list" else np.array(rem, dtype=np.int64)
+    form = case.get("as", "list")
+    if form in ("generator", "chain", "set"):
+        ctx.count("removals_as_iterator_or_set")
+    # removals is documented as an iterable: lists, arrays, sets and one-shot iterators alike
+    arg = {"list": lambda: rem, "array": lambda: np.array(rem, dtype=np.int64),
+           "generator": lambda: (int(x) for x in rem),
+           "chain": lambda: __import__("itertools").chain(rem[:1], rem[1:]),
+           "set": lambda: set(rem)}[form]()
     out = to_subtree(tree, arg, out_mapping=m) if m is not None else to_subtree(tree, arg)
     ctx.count("op_to_subtree")
     surv = [i for i in range(len(spec["pid"])) if i not in gone]
@@ -464,7 +471,7 @@ def _workload(ctx):
                     rem = rem + [rem[0]]  # duplicates are harmless
                 go({"op": "to_subtree", "removals": [int(x) for x in rem],
                     "mapping": str(rng.choice(["list", "dict", "none"])),
-                    "as": str(rng.choice(["list", "array"]))})
+                    "as": str(rng.choice(["list", "array", "generator", "chain", "set"]))})
         for _ in range(2):
             go({"op": "cut_enter", "salt": int(rng.integers(0, 10**6)),
                 "mod": int(rng.choice([2, 3, 5, 9]))})
